@@ -72,50 +72,161 @@ def reset_state():
                 g.clear()
 
 
+class _Captured(Exception):
+    pass
+
+
+def cli_defaults():
+    """the defaults of every option outrank/__main__.py's parser defines (so that environment-dependent branches of the code
+    under test see what a real run sees, e.g. num_threads=8); hand-written fallback if the entry point changes shape"""
+    import argparse
+    try:
+        import outrank.__main__ as m
+        orig = argparse.ArgumentParser.parse_args
+
+        def grab(self, *a, **k):
+            raise _Captured(self)
+        argparse.ArgumentParser.parse_args = grab
+        try:
+            m.main()
+        except _Captured as c:
+            parser = c.args[0]
+        finally:
+            argparse.ArgumentParser.parse_args = orig
+        return {a.dest: a.default for a in parser._actions if a.dest != "help"}, True
+    except BaseException:
+        return {"label_column": "label", "interaction_order": 1, "combination_number_upper_bound": 2 ** 15,
+                "reference_model_JSON": "", "heuristic": "MI-numba-randomized", "num_threads": 8,
+                "missing_value_symbols": ",{}", "transformers": "none", "target_ranking_only": "True",
+                "explode_multivalue_features": "False", "subfeature_mapping": "False",
+                "include_noise_baseline_features": "False", "feature_set_focus": None, "task": "all",
+                "mi_stratified_sampling_ratio": 1.0, "max_unique_hist_constraint": 30000,
+                "rare_value_count_upper_bound": 1, "disable_tqdm": "False"}, False
+
+
+CLI_DEFAULTS, CLI_DEFAULTS_FROM_PARSER = cli_defaults()
+
+
+def make_args(**over):
+    d = dict(CLI_DEFAULTS)
+    d.update(over)
+    return types.SimpleNamespace(**d)
+
+
+def digits(x, d, k, little):
+    ds = []
+    for _ in range(k):
+        ds.append(x % d)
+        x //= d
+    return ds if little else ds[::-1]
+
+
 def large_frame(p):
-    """deterministic large-cardinality frames (too big to ship through JSON / Coq): returns names, rows"""
+    """deterministic large frames (too big to ship through JSON / Coq): returns names, rows, label"""
+    import random
     n, off = p["n"], p.get("offset", 0)
     if p["kind"] == "grid":                  # all tuples distinct
         m = p["mod"]
         rows = [["u%d" % (i % m + off), "i%d" % (i // m + off), str(i & 1)] for i in range(n)]
-    else:                                    # "dup": d distinct tuples, each repeated
+        return ["user", "item", "label"], rows
+    if p["kind"] == "dup":                   # d distinct tuples, each repeated
         d, m = p["distinct"], p["mod"]
         rows = []
         for i in range(n):
             j = (i * 7919) % d
             rows.append(["u%d" % (j % m + off), "i%d" % (j // m + off), str(i & 1)])
-    return ["user", "item", "label"], rows
+        return ["user", "item", "label"], rows
+    # "scale": k id-like columns with d distinct values each (d ** k beyond 2**31 / 2**32 / 2**63 / 2**64), n rows just
+    # above 2**16.  Row i < d carries id i in every column (so first-occurrence and sorted codes of id i are both i);
+    # then pairs of tuples whose mixed-radix numbers (either digit order) differ by exactly 2**31, 2**32, 2**63, 2**64
+    # where d ** k is large enough; the rest random tuples with repeats.
+    k, d = p["k"], p["distinct"]
+    rng = random.Random("scale/%d/%d/%d/%d" % (n, k, d, p.get("seed", 0)))
+
+    def ident(c):
+        return "%07d" % (c + off)
+    tuples = [[i] * k for i in range(min(d, n))]
+    space = d ** k
+    for W in (2 ** 31, 2 ** 32, 2 ** 63, 2 ** 64):
+        if space > W + 1:
+            for little in (False, True):
+                for _ in range(6):
+                    x = rng.randrange(0, space - W)
+                    a, b = digits(x, d, k, little), digits(x + W, d, k, little)
+                    tuples += [a, b, a, b]
+    pool = []
+    while len(tuples) < n:
+        if pool and rng.random() < 0.35:
+            tuples.append(rng.choice(pool))
+        else:
+            t = [rng.randrange(d) for _ in range(k)]
+            pool.append(t)
+            tuples.append(t)
+    tuples = tuples[:n]
+    rows = [[ident(c) for c in t] + [str(i & 1)] for i, t in enumerate(tuples)]
+    return ["f%d" % j for j in range(k)] + ["label"], rows
+
+
+def judge_large(names, rows, order, res):
+    """Python-side judgement of one returned frame: originals / names unchanged, every new cell a non-null string,
+    tuple -> value a function and injective, per new column.  Returns (summary, problem-or-None)."""
+    import itertools
+    nd = len(names)
+    feats = [x for x in names if x != "label"]
+    cand = {" AND ".join(c): c for c in itertools.combinations(feats, order)}
+    o = {"names": [str(c) for c in res.columns], "nrows": int(res.shape[0])}
+    if o["nrows"] != len(rows) or not res.index.equals(pd.RangeIndex(len(rows))):
+        return o, {"clause": "rows", "detail": "nrows=%d (input %d) or row labels changed" % (o["nrows"], len(rows))}
+    if o["names"][:nd] != names or sorted(o["names"][nd:]) != sorted(cand):
+        return o, {"clause": "names", "detail": {"names": o["names"][:12]}}
+    for j in range(nd):
+        if res.iloc[:, j].tolist() != [r[j] for r in rows]:
+            return o, {"clause": "originals", "detail": "column %r changed" % names[j]}
+    o["columns"] = []
+    for j in range(nd, len(o["names"])):
+        nm = o["names"][j]
+        pos = [names.index(f) for f in cand[nm]]
+        vals = res.iloc[:, j].tolist()
+        bad = [i for i, v in enumerate(vals) if not isinstance(v, str)]
+        if bad:
+            return o, {"clause": "null", "column": nm, "n_bad": len(bad),
+                       "rows": [{"row": i, "tuple": [rows[i][q] for q in pos], "value": repr(vals[i])} for i in bad[:4]]}
+        t2v, v2t = {}, {}
+        for i, (r, v) in enumerate(zip(rows, vals)):
+            t = tuple(r[q] for q in pos)
+            first = t2v.setdefault(t, (v, i))
+            if first[0] != v:
+                return o, {"clause": "function", "column": nm,
+                           "rows": [{"row": first[1], "tuple": list(t), "value": first[0]}, {"row": i, "tuple": list(t), "value": v}]}
+            first = v2t.setdefault(v, (t, i))
+            if first[0] != t:
+                return o, {"clause": "injective", "column": nm,
+                           "rows": [{"row": first[1], "tuple": list(first[0]), "value": v}, {"row": i, "tuple": list(t), "value": v}]}
+        o["columns"].append({"name": nm, "distinct_tuples": len(t2v), "distinct_values": len(v2t)})
+    return o, None
 
 
 def run_large(case):
     p = case["large"]
     names, rows = large_frame(p)
-    df = pd.DataFrame(rows, columns=names)
-    args = types.SimpleNamespace(label_column="label", interaction_order=2, combination_number_upper_bound=2 ** 20,
-                                 reference_model_JSON="", heuristic="MI-numba-randomized")
-    res = cr.compute_combined_features(df, args, FakeBar(), False)
-    o = {"ok": True, "names": [str(c) for c in res.columns], "nrows": int(res.shape[0]),
-         "index_ok": list(res.index[:5]) == [0, 1, 2, 3, 4] and len(res.index) == len(rows)}
-    if len(o["names"]) != 4:
-        o["problem"] = "expected exactly one new column"
-        return o
-    vals = res.iloc[:, 3].tolist()
-    prefix_ok = all(res.iloc[:, j].tolist() == [r[j] for r in rows] for j in range(3))
-    o["prefix_ok"] = bool(prefix_ok)
-    t2v, v2t = {}, {}
-    collision = None
-    split = None
-    for r, v in zip(rows, vals):
-        t = (r[0], r[1])
-        if t2v.setdefault(t, v) != v and split is None:
-            split = {"tuple": list(t), "values": [t2v[t], v]}
-        if v2t.setdefault(v, t) != t and collision is None:
-            collision = {"value": v, "tuples": [list(v2t[v]), list(t)]}
-    o["distinct_tuples"] = len(t2v)
-    o["distinct_values"] = len(v2t)
-    o["collision"] = collision
-    o["split"] = split
-    o["value_sample"] = [str(x) for x in vals[:3]]
+    order = p.get("k", 2)
+    o = {"ok": True, "runs": [], "cli_defaults_from_parser": CLI_DEFAULTS_FROM_PARSER}
+    for t in p.get("threads", [1, 4, 8]):
+        reset_state()
+        df = pd.DataFrame(rows, columns=names)
+        args = make_args(label_column="label", interaction_order=order, combination_number_upper_bound=2 ** 20,
+                         reference_model_JSON="", num_threads=t)
+        try:
+            res = cr.compute_combined_features(df, args, FakeBar(), False)
+            summ, problem = judge_large(names, rows, order, res)
+        except Exception as e:
+            import traceback
+            summ, problem = {}, {"clause": "raises", "detail": "%s: %s" % (type(e).__name__, e), "tb": traceback.format_exc()[-800:]}
+        summ["num_threads"] = t
+        summ["problem"] = problem
+        o["runs"].append(summ)
+        if problem:
+            break
     return o
 
 
@@ -131,9 +242,9 @@ for case in payload["cases"]:
         index = case.get("index")
         df = pd.DataFrame(case["rows"], columns=case["names"], index=index)
         labels = list(df.index)
-        args = types.SimpleNamespace(
-            label_column=case["label"], interaction_order=case["order"], combination_number_upper_bound=case["cap"],
-            reference_model_JSON="", heuristic="MI-numba-randomized")
+        args = make_args(label_column=case["label"], interaction_order=case["order"],
+                         combination_number_upper_bound=case["cap"], reference_model_JSON="",
+                         heuristic="MI-numba-randomized", num_threads=case.get("threads", CLI_DEFAULTS.get("num_threads", 8)))
         res = cr.compute_combined_features(df, args, FakeBar(), bool(case.get("is3mr", False)))
         o = read_frame(res, labels)
         o["ok"] = True
